@@ -237,3 +237,107 @@ def graph_reach(s0: int, s1: int, s2: int, src: int, af: int, rf: int, role: int
     del TAGS[:]
     r = _run(s0, s1, s2, src, af, rf, role, rrole)
     return not (r is None and 'checked' in TAGS and s0 > 0)
+
+
+# ---------------------------------------------------------------------------------------
+# H2 history independence: query, change the repository (new subclass + instances, new or deleted
+# association instances), query again.  The property quantifies over repositories, so the second
+# answer must be a function of the stored state alone: it is compared with the answer of a FRESH
+# server loaded with the same final repository, and with what the change implies directly.
+CHANGES = ['new association subclass with instance', 'new node subclass with linked instance', 'new node sub-subclass with linked instance',
+           'delete the association instance', 'add association subclass instance']
+
+
+def _q(conn, x, AF, RF):
+    return (sorted(_nohost(p) for p in conn.AssociatorNames(x, AssocClass=AF, ResultClass=RF)),
+            sorted(_nohost(i.path) for i in conn.Associators(x, AssocClass=AF, ResultClass=RF)),
+            sorted(_nohost(p) for p in conn.ReferenceNames(x, ResultClass=AF)),
+            sorted(_nohost(i.path) for i in conn.References(x, ResultClass=AF)))
+
+
+def _history(s0: int, src: int, af: int, rf: int, change: int, warm: bool):
+    slot = decode_slot(0, s0)
+    CONN.cimrepository.load(pickle.loads(REPO0))
+    first = None
+    if slot is not None:
+        first = mk_assoc(0, slot[0], slot[1])
+        CONN.CreateInstance(first)
+    x = npath(src)
+    AF, RF = ASSOC_F[af], RESULT_F[rf]
+    TAGS.append('start')
+    try:
+        if warm:
+            _q(CONN, x, AF, RF)
+        other = npath((src + 1) % 4)
+        new_ref = None
+        new_node = None
+        if change == 0:
+            CONN.compile_mof_string('[Association] class A_New : A_Bin { };', namespace='root/a')
+            new_ref = CONN.CreateInstance(CIMInstance('A_New', properties={'Ante': x, 'Dep': other}))
+        elif change in (1, 2):
+            CONN.compile_mof_string('class N3 : %s { };' % ('N' if change == 1 else 'N2'), namespace='root/a')
+            new_node = CONN.CreateInstance(CIMInstance('N3', properties={'K': 'n4'}))
+            CONN.CreateInstance(CIMInstance('A_Bin', properties={'Ante': x, 'Dep': new_node}))
+        elif change == 3:
+            if first is None:
+                return None
+            CONN.DeleteInstance(first.path)
+        else:
+            new_ref = CONN.CreateInstance(CIMInstance('A_Sub', properties={'Ante': x, 'Dep': npath((src + 2) % 4)}))
+        TAGS.append('changed')
+        got = _q(CONN, x, AF, RF)
+        fresh = pywbem_mock.FakedWBEMConnection(default_namespace='root/a')
+        fresh.cimrepository.load(pickle.loads(pickle.dumps(CONN.cimrepository)))
+        want = _q(fresh, x, AF, RF)
+    except CIMError as e:
+        if e.status_code == pywbem.CIM_ERR_ALREADY_EXISTS and 'changed' not in TAGS[-1:]:
+            return None     # the change asks for an instance that the pre-state already holds: legitimately refused
+        return 'valid sequence raised CIMError %d' % e.status_code
+    except Error as e:
+        return 'valid sequence raised %s' % type(e).__name__
+    if got != want:
+        return 'after "%s" the traversal answers differ from a fresh server holding the same repository (%s)' % (
+            CHANGES[change], 'warm' if warm else 'cold')
+    bin_ok = AF is None or AF.lower() == 'a_bin'
+    if change == 0 and bin_ok and _nohost(new_ref) not in got[2]:
+        return 'instance of a new subclass of the ResultClass filter class is not returned by ReferenceNames'
+    if change in (1, 2) and bin_ok:
+        rf_ok = RF is None or RF.lower() == 'n' or (change == 2 and RF.lower() == 'n2')
+        if rf_ok != (_nohost(new_node) in got[0]):
+            return 'instance of a new subclass of the ResultClass filter class is %s by AssociatorNames' % ('not returned' if rf_ok else 'returned')
+    if change == 3 and _nohost(first.path) in got[2]:
+        return 'deleted association instance still returned'
+    if change == 4 and (bin_ok or AF == 'A_Sub') and _nohost(new_ref) not in got[2]:
+        return 'new association instance not returned by ReferenceNames'
+    TAGS.append('checked')
+    return None
+
+
+def _run_h(*a):
+    if mode.REPLAY:
+        return _history(*a)
+    from crosshair.tracers import NoTracing
+    from selpick import pick_all
+    b = pick_all(a)
+    with NoTracing():
+        return _history(*b)
+
+
+def history(s0: int, src: int, af: int, rf: int, change: int, warm: bool) -> Optional[str]:
+    """
+    pre: 0 <= s0 < NCODES and 0 <= src < 4 and 0 <= af < len(ASSOC_F) and 0 <= rf < len(RESULT_F) and 0 <= change < 5
+    pre: (change * 4 + src) % NPARTS == PART
+    post: _ is None
+    """
+    return _run_h(s0, src, af, rf, change, warm)
+
+
+def history_reach(s0: int, src: int, af: int, rf: int, change: int, warm: bool) -> bool:
+    """
+    pre: 0 <= s0 < NCODES and 0 <= src < 4 and 0 <= af < len(ASSOC_F) and 0 <= rf < len(RESULT_F) and 0 <= change < 5
+    pre: (change * 4 + src) % NPARTS == PART
+    post: _
+    """
+    del TAGS[:]
+    r = _run_h(s0, src, af, rf, change, warm)
+    return not (r is None and 'checked' in TAGS and warm)
